@@ -19,20 +19,32 @@ RULE = ("the REAL apps/nsqd binary (built -tags verif from the repository under 
         "after each kill nsqd.dat is read and the daemon restarted. (b) crafted nsqd.dat files fed to start-up: invalid names, duplicate topics/channels "
         "with conflicting paused flags, ephemeral names, truncation at a random byte, garbage, absent file. (c) write faults: after 0-3 creations the daemon lowers its own RLIMIT_FSIZE to 1-100 bytes (hook NSQ_VERIF_FSIZE, SIGXFSZ ignored; judged only when /proc/<pid>/limits shows the limit), so every later "
         "write of a temp metadata file is cut short and fails with EFBIG while fsync/close/rename work; 1-6 further requests, SIGKILL, restart: nsqd.dat must still be the complete document it was when the fault was armed "
-        "and the daemon must start on it. (d) data-path lock: second daemon on a "
-        "live path, third after SIGKILL. A case is non-trivial when at least one request was sent / a file was present; distinct = distinct recorded histories.")
+        "and the daemon must start on it. (d) data-path lock x life of the daemon: a second daemon (real binary) is started on the data path while the first one is held at each of "
+        "7 phases - inside its start-up persist (not serving yet), serving idle, a Notify goroutine inside PersistMetadata, SIGTERM with Exit() parked after it closed the topics "
+        "(hook exit:topics-closed), SIGTERM with Exit() in waitGroup.Wait() behind a Notify goroutine that has not handed its event over yet, after the graceful exit has completed, after SIGKILL "
+        "(phases pinned with NSQ_VERIF_WAIT on a counter that is never hit; dropped as inconclusive if the attempt outlasts 6 s of the hook's 10 s cap); recorded: did the second serve / exit non-zero by itself, "
+        "is nsqd.dat the same inode with the same bytes, is the first still where it was, does a third daemon start after everything was killed and serve what nsqd.dat holds. "
+        "(e) forced schedule: a channel deletion that completes while the persist of its own Notify goroutine - snapshot taken BEFORE the removal - still holds the NSQD lock "
+        "(deleter held at before-remove until that persist has written / fsynced its temp file, the persist held there until the channel left the map; 3 variants: idle kill, kill right after the answer with a paused sibling channel, holder parked after fsync). "
+        "A case is non-trivial when at least one request was sent / a file was present; distinct = distinct recorded histories.")
 TRUSTED = [
     "modelled, not verified: the Go scheduler, sync.RWMutex (NSQD.Lock excludes other lockers; RLock blocks while a writer holds it), atomic flag stores, "
     "encoding/json (a proper prefix of the marshalled document is not decodable; a complete one decodes to what was marshalled), os.OpenFile/Write/Sync/Rename "
     "(rename is atomic with respect to readers and to SIGKILL), SIGKILL = loss of process state only",
     "hooks (build tag verif, no-op without it): verifPoint calls in PersistMetadata/writeSyncFile, DeleteExistingTopic/Channel, Notify; /repo/nsqd/verif_meta.go "
-    "(status socket with the hit counters; NSQ_VERIF_HOLD makes a point wait for pending Notify goroutines); NSQ_VERIF_KILL from verif_points.go",
+    "(status socket with the hit counters; NSQ_VERIF_HOLD makes a point wait for pending Notify goroutines; NSQ_VERIF_WAIT makes the k-th hit of a point wait for a counter, at most 10 s - "
+    "used to pin the K8 schedule, the stale-persist deletion schedule and the phases of the data-path lock cases, exit:topics-closed in NSQD.Exit included); NSQ_VERIF_KILL from verif_points.go",
+    "data-path lock cases: the phase of the first daemon is established from the status socket counters and its log lines (QUEUESCAN: closing = exitChan is closed; NSQ: stopping subsystems / NSQ: bye not yet printed); "
+    "flock(2) itself (one owner per directory, LOCK_NB fails when held, dropped by the kernel with the last descriptor) is MODELLED in model/PathLock.v, not verified",
     "strace output parsing and /stats JSON parsing in the driver; the driver's client is sequential (one request in flight), which is what makes the live history schedule-independent for the judge",
     "tools/gotables/meta.go reads call order and guard texts only (go/ast); it does not evaluate control flow",
 ]
 ASSUMPTIONS = [
     "C06 'partial': power-loss durability (fsync honesty; the code does not fsync the directory after the rename) is outside the crash model - a SIGKILL keeps the page cache, so the model's crash loses process state only",
-    "C06 'partial': the data-path lock (flock) is OS behaviour; it is tested on the real binaries (second daemon exits non-zero, first unaffected, lock released by SIGKILL), not proved",
+    "C06 'partial': the data-path lock: flock(2) is OS behaviour and is modelled (model/PathLock.v: one owner, non-blocking, released at process end); over that model and the daemon's life program BUILT FROM THE SOURCE "
+    "(where nsqd.New locks, the order of calls in NSQD.Exit, what DirLock.Lock/Unlock do) it is proved for all schedules of any number of processes that the path is never used unlocked, that at most one process uses it - "
+    "'uses' lasting until waitGroup.Wait() has returned - and that the flock step of any other process fails and ends it (C06_path_never_used_unlocked, C06_path_exclusive, C06_second_refused; C06_lock_source_shape breaks when the order changes); "
+    "tested on the real binaries at 7 phases of the first daemon's life. Which steps concern the data path is the model's classification (LoadMetadata, PersistMetadata, Topic.Close = touch; Main = background goroutines until waitGroup.Wait)",
     "KNOWN FINDING K8: GetMetadata reads the topics one after the other, each under its own lock (modelled so); with two or more CONCURRENT mutating clients the persisted document can combine channel sets of "
     "different instants, so 'the restart state is ONE live state the daemon passed through' is refuted in general (C06_atomic_full_refuted; reproduced on the real daemon on every run, case fixed-K8-mixed-document), "
     "proved componentwise for all schedules (C06_atomic), and proved exactly outside the K8 region (C06_atomic_outside) which contains every sequential-client schedule (C06_atomic_sequential)",
@@ -50,12 +62,14 @@ LEVEL_TEXT = ("Machine-checked proof (Coq 8.16.1) over an executable small-step 
               "no GetMetadata has two mutation steps between its topic reads (C06_atomic_outside) and hence for every sequential client (C06_atomic_sequential); whenever no request, Notify goroutine or persist is in progress the file equals the "
               "persisted form of the live state - every completed creation in, every completed deletion out (C06_idle_full; the pre-fix program is refuted by the F6 "
               "schedule inside Coq); an answered topic pause/unpause is in the file from the answer on, across kills and restarts, until another request touches the "
-              "topic (C06_pause_acked). The model's step function is DEFINED from gen/MetaShape.v, the call-order table regenerated from the source on every run "
+              "topic (C06_pause_acked). Data-path lock (model/PathLock.v, any number of daemon processes on one path, every interleaving of their steps, background writes and SIGKILLs): no process touches the path or has background goroutines without holding the flock, "
+              "at most one process uses the path at any instant - through its whole graceful exit up to the return of waitGroup.Wait() - and while it does the flock step of any other process fails and ends that process (C06_path_never_used_unlocked, C06_path_exclusive, C06_second_refused; "
+              "the life program is built from the source table, C06_lock_source_shape). The model's step function is DEFINED from gen/MetaShape.v, the call-order table regenerated from the source on every run "
               "(C06_source_shape). Tied to the code by differential correspondence on the real nsqd binary under kill-point / wall-clock SIGKILL, strace and a concurrent reader.")
 LEVEL_NOTE = ("KNOWN FINDING K8 (replayed on every run, case fixed-K8-mixed-document, tag kf=K8): two concurrent channel deleters parked between lookup and map removal plus a Notify persist parked between "
               "two topic reads of GetMetadata leave nsqd.dat = {a/x, b} after SIGKILL although the daemon only ever had {} {a} {a,b} {a,b/y} {a/x,b/y} {a,b/y} {a,b}; the full 'one passed-through state' clause therefore holds only outside "
               "that region (sequential clients included). Trusted: Coq kernel + vm_compute; the hand-written model (scheduler, locks, JSON, file system modelled, see trusted_base); gotables (syntax only); the verif hooks; "
-              "the correspondence is sampled, the theorems are not. Partial: power-loss durability and flock are OS behaviour (tested, not proved); channel pause proof not mechanised; write faults covered for atomicity only (idle/pause theorems assume fault-free schedules); fsync/rename faults not modelled.")
+              "the correspondence is sampled, the theorems are not. Partial: power-loss durability is OS behaviour (outside the crash model); flock(2) is modelled, the lock clause is proved over that model and tested at 7 life phases on the real binaries; channel pause proof not mechanised; write faults covered for atomicity only (idle/pause theorems assume fault-free schedules); fsync/rename faults not modelled.")
 TECHNIQUE = "Coq invariant proofs over all interleavings and crash points of a small-step model + differential correspondence on the real daemon (SIGKILL at named points, strace)"
 DESIGN_REF = "DESIGN.md §5 C06"
 SEARCH_SCALE = 4
